@@ -50,10 +50,10 @@ func (P) Engine() string { return "E1" }
 
 func (P) Describe() harness.Description {
 	return harness.Description{
-		MustHit: []string{"blocked_in_place_with_partial_cause", "colliding_orders", "long_chain_with_ties", "blocked_by_first_blocker", "panic_in_prepare", "panic_in_check", "panic_in_stat", "panic_at_completion", "exit_handler_panicked", "block_error_checked_after_reuse", "pool_object_reused"},
+		MustHit: []string{"blocked_in_place_with_partial_cause", "colliding_orders", "long_chain_with_ties", "blocked_by_first_blocker", "panic_in_prepare", "panic_in_check", "panic_in_stat", "panic_at_completion", "exit_handler_panicked", "block_error_checked_after_reuse", "pool_object_reused", "plain_request_between_scripted_ones"},
 		Level:   "exploration",
-		Rule: "case = (chain of 0-5 (in 12% of the kinds 6-40) prepare, rule-check and statistic recording slots with arbitrary and colliding order values, each scripted per entry to pass / return nil / block (fresh result, or the pooled result reset in place with the full cause, the type only, or type and message) / panic (statistic slots when they hear the outcome or when they hear the completion); exit handlers that panic; 2-8 entries entered and exited in any order so that pooled contexts and results are recycled under a seeded pool policy). " +
-			"Oracle: the call log of every Entry equals the stable sort by order of each slot kind, prepare -> rule check -> statistic; the first blocking rule-check slot defines the returned block error and no later rule-check slot runs; without panics every statistic slot is told the outcome exactly once and the completion exactly when the entry had passed; no panic escapes Entry or Exit and a panicking request is admitted; every returned *BlockError keeps its type, message, rule and value while later entries run. " +
+		Rule: "case = (chain of 0-5 (in 12% of the kinds 6-40) prepare, rule-check and statistic recording slots with arbitrary and colliding order values, each scripted per entry to pass / return nil / block (fresh result, or the pooled result reset in place with the full cause, the type only, or type and message) / panic (statistic slots when they hear the outcome or when they hear the completion); exit handlers that panic; 2-8 entries entered and exited in any order so that pooled contexts and results are recycled under a seeded pool policy; now and then a request with no option at all on the global chain in between). " +
+			"Oracle: the call log of every Entry equals the stable sort by order of each slot kind, prepare -> rule check -> statistic; the first blocking rule-check slot defines the returned block error and no later rule-check slot runs; without panics every statistic slot is told the outcome exactly once and the completion exactly when the entry had passed; no panic escapes Entry or Exit and a panicking request is admitted; every returned *BlockError keeps its type, message, rule and value while later entries run; a request that names no chain is heard of by no slot of the scripted chain and carries the default options. " +
 			"non-trivial = a block and a panic occurred in one run with colliding orders; distinct = hash(config, ops)",
 		Assumptions: []string{"for entries in which a slot or exit handler panicked only 'no panic escapes' and 'the request is admitted' are asserted (the statement exempts statistic notifications under panics)"},
 		Real:        []string{"core/base.SlotChain (sorting, Entry, exit, pooled contexts and results)", "base.SentinelEntry.Exit/WhenExit", "api.Entry (WithSlotChain), block error copy"},
@@ -125,6 +125,10 @@ func (P) Gen(rng *sim.Rng, tier string) *harness.Case {
 			ops = append(ops, harness.Op{K: "entry", E: entered, R: rng.Intn(2)})
 			open = append(open, entered)
 			entered++
+			if rng.Chance(0.2) {
+				// a request that names no chain and states no option, right after one that named the scripted chain
+				ops = append(ops, harness.Op{K: "plain"})
+			}
 		} else {
 			i := rng.Intn(len(open))
 			ops = append(ops, harness.Op{K: "exit", E: open[i]})
@@ -157,7 +161,7 @@ type slotBase struct {
 
 func (s *slotBase) Order() uint32 { return s.spec.Order }
 func (s *slotBase) script(ctx *base.EntryContext) (int, int) {
-	e := int(ctx.Input.Flag)
+	e := int(ctx.Input.Flag &^ (1 << 20))
 	if e < 0 || e >= len(s.spec.Script) {
 		return e, sPass
 	}
@@ -388,7 +392,11 @@ func (P) Exec(c *harness.Case) *harness.Outcome {
 			ents[k] = m
 			var be *base.BlockError
 			harness.Call(o, "C16.panic-escaped-entry", step, func() {
-				m.e, be = sentinel.Entry(harness.ResName(op.R), sentinel.WithSlotChain(sc), sentinel.WithFlag(int32(k)))
+				// (every option is stated with a value other than its default: the pooled option object carries them all
+				// when it goes back to its pool, and the plain requests in between show what the next taker finds)
+				m.e, be = sentinel.Entry(harness.ResName(op.R), sentinel.WithSlotChain(sc), sentinel.WithFlag(int32(k)|1<<20),
+					sentinel.WithBatchCount(3), sentinel.WithTrafficType(base.Inbound), sentinel.WithResourceType(base.ResTypeWeb),
+					sentinel.WithArgs("c16", k), sentinel.WithAttachments(map[interface{}]interface{}{"c16": k}))
 			})
 			if o.Failed() {
 				return o
@@ -469,6 +477,34 @@ func (P) Exec(c *harness.Case) *harness.Outcome {
 					panic(fmt.Sprintf("scripted panic in exit handler of entry %d", k))
 				})
 			}
+		case "plain":
+			// A request on the global chain with no option stated: the scripted chain of the entries around it is not
+			// its chain (none of its slots may hear of it), and it carries the documented defaults whatever the pooled
+			// option object carried for the entry before it.
+			var pe *base.SentinelEntry
+			var pbe *base.BlockError
+			harness.Call(o, "C16.panic-escaped-entry", step, func() { pe, pbe = sentinel.Entry("c16-plain") })
+			if o.Failed() {
+				return o
+			}
+			if pbe != nil || pe == nil {
+				o.Fail("C16.plain-request-blocked", step, "a request of a resource without rules on the global chain was blocked: %v", pbe)
+				return o
+			}
+			if in := pe.Context().Input; in == nil || in.Flag != 0 || in.BatchCount != 1 || len(in.Args) != 0 || len(in.Attachments) != 0 ||
+				pe.Resource().FlowType() != base.Outbound || pe.Resource().Classification() != base.ResTypeCommon {
+				o.Fail("C16.plain-request-inherited-options", step, "a request made without options carries flag %d batch %d args %v attachments %v traffic type %v resource type %v: defaults are 0, 1, none, none, Outbound, Common", in.Flag, in.BatchCount, in.Args, in.Attachments, pe.Resource().FlowType(), pe.Resource().Classification())
+				return o
+			}
+			harness.Call(o, "C16.panic-escaped-exit", step, func() { pe.Exit() })
+			if o.Failed() {
+				return o
+			}
+			if got := w.log[logStart:]; len(got) != 0 {
+				o.Fail("C16.slots-of-another-chain-called", step, "a request that named no chain (global chain) made the scripted chain's slots run: %v", fmtLog(got))
+				return o
+			}
+			o.Probe("plain_request_between_scripted_ones")
 		case "exit":
 			m := ents[op.E]
 			if m == nil || m.e == nil {
